@@ -3,6 +3,7 @@ import CppUModel.Proofs.MockValue
 import CppUModel.Model.MockNamedValueList
 import CppUModel.Model.MockEntry
 import CppUModel.Model.MockReturn
+import CppUModel.Model.MockData
 /-!
 # C09 — mock parameter values compare by mathematical value, symmetrically
 
@@ -16,7 +17,7 @@ All quantifiers range over every bit pattern / byte string; proofs by toInt/toNa
 namespace Mock
 open Gen.MockEquals
 
-set_option maxRecDepth 4000
+set_option maxRecDepth 8000
 set_option linter.unusedSimpArgs false
 
 /-- the table (type name, union member, C type) extracted from the `setValue` overloads is the one
@@ -666,6 +667,452 @@ theorem reader_default (level reader g : String) (d : Int) (hp : readerPlan leve
 /-- the twelve `…OrDefault` readers are the default-returning form, the twelve others are not -/
 theorem reader_forms :
     ∀ row ∈ retReaders, (readerPlan row.1 row.2.1).map (·.1) = some (row.2.2.2.1 == "orDefault") := by decide
+
+/-! ## the whole of `equals` at once, and symmetry for ALL ordered type pairs
+
+`specEq` (Spec/MockValue.lean) is the property written as one function of the two values.  `equals_eq_spec` says that the
+REGENERATED `equalsGen` is that function on every pair of valid values — all 14 x 14 ordered pairs of value types, all
+payloads.  Symmetry then holds for every pair with exactly two exceptions, both stated with a witness: two doubles
+(the LEFT operand's tolerance decides) and two objects (the LEFT operand's comparator decides). -/
+
+/-- validity implies the well-formedness the single-type theorems ask for -/
+theorem valid_wf {a : MVal} (h : a.Valid) : a.WF := by
+  cases a <;> first | exact h | trivial
+
+/-- two objects of one custom type: the left operand's comparator, none = not equal -/
+theorem obj_same_type_spec (ty : String) (hty : ty ∉ builtinTypeNames) (x y : Nat) (c c' : Option (Nat → Nat → Bool)) :
+    equalsGen (.obj ty x c) (.obj ty y c') = specEq (.obj ty x c) (.obj ty y c') := by
+  cases c with
+  | none => rw [obj_no_comparator_false ty hty]; simp [specEq]
+  | some f => rw [obj_eq_comparator ty hty]; simp [specEq]
+
+/-- The whole of `equals`, every ordered pair of value types at once. -/
+theorem equals_eq_spec (a b : MVal) (ha : a.Valid) (hb : b.Valid) : equalsGen a b = specEq a b := by
+  have hwa := valid_wf ha
+  have hwb := valid_wf hb
+  by_cases hi : a.isInt = true ∧ b.isInt = true
+  · rw [Bool.eq_iff_iff, equals_int_iff a b hi.1 hi.2]
+    cases a <;> cases b <;> simp [MVal.isInt] at hi <;> simp [specEq, denote?]
+  · by_cases ht : a.type_ = b.type_
+    · cases a <;> cases b <;> simp [MVal.type_, MVal.isInt, MVal.WF, builtinTypeNames] at ht hi hwa hwb <;>
+        (try (exfalso; simp_all; done))
+      all_goals first
+        | (rw [Bool.eq_iff_iff, equals_bool_iff]; simp [specEq])
+        | (rw [dbl_eq_uses_left_tolerance]; rfl)
+        | (rw [Bool.eq_iff_iff, str_eq_iff_content _ _ ha hb]; simp [specEq])
+        | (rw [Bool.eq_iff_iff, equals_ptr_iff]; simp [specEq])
+        | (rw [Bool.eq_iff_iff, equals_cptr_iff]; simp [specEq])
+        | (rw [Bool.eq_iff_iff, equals_fptr_iff]; simp [specEq])
+        | (rw [Bool.eq_iff_iff, mem_eq_iff_len_and_content _ _ ha hb]; simp [specEq])
+        | (subst ht; exact obj_same_type_spec _ ha _ _ _ _)
+    · rw [equals_other_type_false a b hwa hwb ht hi]
+      cases a <;> cases b <;> simp [MVal.type_, MVal.isInt] at ht hi <;> simp [specEq, denote?, *]
+
+
+/-- the property function is symmetric outside the two documented classes -/
+theorem specEq_symm (a b : MVal) (hd : ¬ (a.isDbl = true ∧ b.isDbl = true)) (ho : ¬ (a.isObj = true ∧ b.isObj = true)) :
+    specEq a b = specEq b a := by
+  cases a <;> cases b <;> simp [MVal.isDbl, MVal.isObj] at hd ho <;>
+    simp [specEq, denote?, Bool.beq_comm] <;>
+    (try (rw [Bool.eq_iff_iff]; simp; constructor <;> intro h <;> simp [h, eq_comm]))
+
+/-- SYMMETRY FOR ALL TYPE PAIRS: `a.equals(b) = b.equals(a)` for every pair of valid values unless both are doubles or both
+    are objects (all 36 integer pairs, bool, strings, buffers, the three pointer types, and every mixed pair) -/
+theorem equals_symm_all (a b : MVal) (ha : a.Valid) (hb : b.Valid)
+    (hd : ¬ (a.isDbl = true ∧ b.isDbl = true)) (ho : ¬ (a.isObj = true ∧ b.isObj = true)) :
+    equalsGen a b = equalsGen b a := by
+  rw [equals_eq_spec a b ha hb, equals_eq_spec b a hb ha, specEq_symm a b hd ho]
+
+/-- class logic of `doubles_equal` is symmetric in the two values whenever the finite comparison is -/
+theorem doublesEqual_symm {F} (c : F → F → F → Bool) (hc : ∀ x y t, c x y t = c y x t) (v w t : D F) :
+    doublesEqual c v w t = doublesEqual c w v t := by
+  cases v <;> cases w <;> cases t <;> simp [doublesEqual, Bool.beq_comm] <;> exact hc _ _ _
+
+/-- doubles ARE symmetric when both carry the same tolerance (hypothesis: `fabs(x-y) <= t` is symmetric in x, y — IEEE) -/
+theorem dbl_symm_same_tolerance (hc : ∀ x y t, floatClose x y t = floatClose y x t) (v w t : D Float) :
+    equalsGen (.dbl v t) (.dbl w t) = equalsGen (.dbl w t) (.dbl v t) := by
+  rw [dbl_eq_uses_left_tolerance, dbl_eq_uses_left_tolerance]; exact doublesEqual_symm _ hc _ _ _
+
+/-- … and are NOT in general: +inf with tolerance +inf accepts 0, 0 with tolerance 0 does not accept +inf -/
+theorem dbl_not_symm_witness :
+    equalsGen (.dbl (.inf false) (.inf false)) (.dbl (.fin 0) (.fin 0)) = true ∧
+    equalsGen (.dbl (.fin 0) (.fin 0)) (.dbl (.inf false) (.inf false)) = false := by
+  rw [dbl_eq_uses_left_tolerance, dbl_eq_uses_left_tolerance]; exact ⟨rfl, rfl⟩
+
+/-- objects are symmetric when both sides carry the same symmetric comparator -/
+theorem obj_symm_same_comparator (ty : String) (hty : ty ∉ builtinTypeNames) (f : Nat → Nat → Bool)
+    (hf : ∀ x y, f x y = f y x) (x y : Nat) :
+    equalsGen (.obj ty x (some f)) (.obj ty y (some f)) = equalsGen (.obj ty y (some f)) (.obj ty x (some f)) := by
+  rw [obj_eq_comparator ty hty, obj_eq_comparator ty hty, hf]
+
+/-- … and are NOT when only one side has a comparator -/
+theorem obj_not_symm_witness :
+    equalsGen (.obj "T" 1 (some fun _ _ => true)) (.obj "T" 1 none) = true ∧
+    equalsGen (.obj "T" 1 none) (.obj "T" 1 (some fun _ _ => true)) = false := by
+  have h : "T" ∉ builtinTypeNames := by decide
+  rw [obj_eq_comparator "T" h, obj_no_comparator_false "T" h]; exact ⟨rfl, rfl⟩
+
+/-- every valid value other than a double or an object equals itself -/
+theorem equals_refl_all (a : MVal) (ha : a.Valid) (hd : a.isDbl = false) (ho : a.isObj = false) : equalsGen a a = true := by
+  rw [equals_eq_spec a a ha ha]
+  cases a <;> simp [MVal.isDbl, MVal.isObj] at hd ho <;> simp [specEq, denote?]
+
+/-- the two double getters succeed on double values only and return what was stored -/
+theorem typed_getter_dbl_own_type_only (v : MVal) (hw : v.WF) :
+    (∀ d, getDoubleValueGen v = .ok d → ∃ t, v = .dbl d t) ∧
+    (∀ t, getDoubleToleranceGen v = .ok t → ∃ d, v = .dbl d t) := by
+  cases v
+  case obj ty a c =>
+    have e := obj_type_beq_false ty a c hw
+    simp only [getDoubleValueGen, getDoubleToleranceGen, e "double" (by decide),
+      Bool.false_eq_true, if_false, reduceCtorEq, false_implies, implies_true, and_self]
+  all_goals
+    simp [getDoubleValueGen, getDoubleToleranceGen, MVal.type_, MVal.doubleValue_value, MVal.doubleValue_tolerance]
+
+/-- the REGENERATED default tolerance of `setValue(double)` is the documented 0.005 -/
+theorem default_tolerance_value : defaultDoubleTolerance = 0.005 := rfl
+
+example : (MVal.str (some [97])).Valid ∧ (MVal.mem [1,2]).Valid ∧ (MVal.obj "T" 1 none).Valid := by
+  refine ⟨?_, ?_, ?_⟩
+  · intro c hc; simp [cstrContent] at hc; subst hc; decide
+  · unfold MVal.Valid SizeOk; decide
+  · unfold MVal.Valid; decide
+
+/-! ## every parameter kind through every typed entry point (the whole scenario: expectation, actual call, `hasInputParameter`)
+
+`Gen.MockEquals.cppOverloadsX / cppExplicitX / hasInputParameterGen` are REGENERATED from MockExpectedCall.h/.cpp and
+MockActualCall.h/.cpp, the C side is followed through C19's regenerated `Gen.CMock` (struct member ↦ initialiser ↦ forwarder:
+callee, argument order, `(value != 0)` for bool, the function-pointer cast). -/
+
+/-- the only call site of `equals` (REGENERATED `hasInputParameter`): the expectation's own parameter is the LEFT operand, the
+    actual parameter the right one; without an expected parameter of that name the answer is `ignoreOtherParameters_` -/
+theorem hasInputParameter_expectation_left (e a : MVal) (ig : Bool) :
+    hasInputParameterGen (some e) a ig = equalsGen e a ∧ hasInputParameterGen none a ig = ig := ⟨rfl, rfl⟩
+
+/-- every non-integer `withParameter` overload forwards to the explicit method of its own kind, arguments in order -/
+theorem apix_overloads_as_required : cppOverloadsX = requiredOverloadsX := rfl
+
+/-- every explicit method stores its argument(s) with the one setter call of its kind -/
+theorem apix_explicit_as_required : cppExplicitX = requiredExplicitX := rfl
+
+/-- C++ entry points (overload or explicit method, either side): the value created holds exactly the argument, of the
+    argument's own type; a double gets the default tolerance -/
+theorem apix_stored_cpp (cls api : String) (hcls : cls ∈ ["expected", "actual"]) (hapi : api ∈ ["ovl", "exp"]) :
+    (∀ b, entryValueX cls api (.bool b) = some (.bool b)) ∧
+    (∀ v, entryValueX cls api (.dbl v) = some (.dbl v defaultTol)) ∧
+    (∀ s, entryValueX cls api (.str s) = some (.str s)) ∧
+    (∀ x, entryValueX cls api (.ptr x) = some (.ptr x)) ∧
+    (∀ x, entryValueX cls api (.cptr x) = some (.cptr x)) ∧
+    (∀ x, entryValueX cls api (.fptr x) = some (.fptr x)) ∧
+    (∀ b, entryValueX cls api (.mem b) = some (.mem b)) ∧
+    (∀ n, entryValueX cls api (.cint n) = none) := by
+  simp only [List.mem_cons, List.mem_nil_iff, or_false] at hcls hapi
+  rcases hcls with h | h <;> subst h <;> rcases hapi with h | h <;> subst h <;>
+    refine ⟨?_, ?_, ?_, ?_, ?_, ?_, ?_, ?_⟩ <;> intro _ <;> rfl
+
+/-- C interface (either side): the same, a bool arrives as an `int` and is true exactly when that int is not 0 -/
+theorem apix_stored_c (cls : String) (hcls : cls ∈ ["expected", "actual"]) :
+    (∀ n, entryValueX cls "c" (.cint n) = some (.bool (n != 0))) ∧
+    (∀ v, entryValueX cls "c" (.dbl v) = some (.dbl v defaultTol)) ∧
+    (∀ s, entryValueX cls "c" (.str s) = some (.str s)) ∧
+    (∀ x, entryValueX cls "c" (.ptr x) = some (.ptr x)) ∧
+    (∀ x, entryValueX cls "c" (.cptr x) = some (.cptr x)) ∧
+    (∀ x, entryValueX cls "c" (.fptr x) = some (.fptr x)) ∧
+    (∀ b, entryValueX cls "c" (.mem b) = some (.mem b)) ∧
+    (∀ b, entryValueX cls "c" (.bool b) = none) := by
+  simp only [List.mem_cons, List.mem_nil_iff, or_false] at hcls
+  rcases hcls with h | h <;> subst h <;>
+    refine ⟨?_, ?_, ?_, ?_, ?_, ?_, ?_, ?_⟩ <;> intro _ <;> rfl
+
+/-- a tolerance can be given on the expectation side only, through all three entry points, and is stored as given -/
+theorem apix_tolerance_expected_only (api : String) (hapi : api ∈ ["ovl", "exp", "c"]) (v t : D Float) :
+    entryValueX "expected" api (.dbl2 v t) = some (.dbl v t) ∧ entryValueX "actual" api (.dbl2 v t) = none := by
+  simp only [List.mem_cons, List.mem_nil_iff, or_false] at hapi
+  rcases hapi with h | h | h <;> subst h <;> exact ⟨rfl, rfl⟩
+
+/-- every non-integer entry point creates a value that is not an integer value (and is well-formed) -/
+theorem apix_value_nonint (cls api : String) (hcls : cls ∈ ["expected", "actual"]) (hapi : api ∈ ["ovl", "exp", "c"])
+    (x : XArg) (m : MVal) (h : entryValueX cls api x = some m) : m.isInt = false ∧ m.WF := by
+  have T := fun v t => apix_tolerance_expected_only api hapi v t
+  simp only [List.mem_cons, List.mem_nil_iff, or_false] at hapi
+  have hc : api = "c" ∨ api ∈ ["ovl", "exp"] := by rcases hapi with h | h | h <;> simp [h]
+  rcases hc with hc | hc
+  · subst hc
+    have S := apix_stored_c cls hcls
+    simp only [List.mem_cons, List.mem_nil_iff, or_false] at hcls
+    cases x <;> first
+      | (rw [S.1] at h; cases h; exact ⟨rfl, trivial⟩)
+      | (rw [S.2.1] at h; cases h; exact ⟨rfl, trivial⟩)
+      | (rw [S.2.2.1] at h; cases h; exact ⟨rfl, trivial⟩)
+      | (rw [S.2.2.2.1] at h; cases h; exact ⟨rfl, trivial⟩)
+      | (rw [S.2.2.2.2.1] at h; cases h; exact ⟨rfl, trivial⟩)
+      | (rw [S.2.2.2.2.2.1] at h; cases h; exact ⟨rfl, trivial⟩)
+      | (rw [S.2.2.2.2.2.2.1] at h; cases h; exact ⟨rfl, trivial⟩)
+      | (rw [S.2.2.2.2.2.2.2] at h; cases h)
+      | (rcases hcls with hh | hh <;> subst hh
+         · rw [(T _ _).1] at h; cases h; exact ⟨rfl, trivial⟩
+         · rw [(T _ _).2] at h; cases h)
+  · have S := apix_stored_cpp cls api hcls hc
+    simp only [List.mem_cons, List.mem_nil_iff, or_false] at hcls
+    cases x <;> first
+      | (rw [S.1] at h; cases h; exact ⟨rfl, trivial⟩)
+      | (rw [S.2.1] at h; cases h; exact ⟨rfl, trivial⟩)
+      | (rw [S.2.2.1] at h; cases h; exact ⟨rfl, trivial⟩)
+      | (rw [S.2.2.2.1] at h; cases h; exact ⟨rfl, trivial⟩)
+      | (rw [S.2.2.2.2.1] at h; cases h; exact ⟨rfl, trivial⟩)
+      | (rw [S.2.2.2.2.2.1] at h; cases h; exact ⟨rfl, trivial⟩)
+      | (rw [S.2.2.2.2.2.2.1] at h; cases h; exact ⟨rfl, trivial⟩)
+      | (rw [S.2.2.2.2.2.2.2] at h; cases h)
+      | (rcases hcls with hh | hh <;> subst hh
+         · rw [(T _ _).1] at h; cases h; exact ⟨rfl, trivial⟩
+         · rw [(T _ _).2] at h; cases h)
+
+/-- Whatever entry points the expectation and the actual call use and whatever they pass: the expectation accepts the
+    actual parameter exactly as the property's `specEq` says, with the EXPECTATION as the left operand. -/
+theorem apix_equals_spec (ea aa : String) (x y : XArg) (e a : MVal) (ig : Bool)
+    (_he : entryValueX "expected" ea x = some e) (_ha : entryValueX "actual" aa y = some a) (ve : e.Valid) (va : a.Valid) :
+    hasInputParameterGen (some e) a ig = specEq e a := equals_eq_spec e a ve va
+
+/-- doubles through the API: the tolerance given on the EXPECTATION decides, through any pair of entry points -/
+theorem apix_double_expectation_tolerance (ea aa : String) (hea : ea ∈ ["ovl", "exp", "c"]) (haa : aa ∈ ["ovl", "exp", "c"])
+    (v t w : D Float) (ig : Bool) :
+    ∃ e a, entryValueX "expected" ea (.dbl2 v t) = some e ∧ entryValueX "actual" aa (.dbl w) = some a ∧
+      hasInputParameterGen (some e) a ig = doublesEqual floatClose v w t := by
+  refine ⟨.dbl v t, .dbl w defaultTol, (apix_tolerance_expected_only ea hea v t).1, ?_, ?_⟩
+  · simp only [List.mem_cons, List.mem_nil_iff, or_false] at haa
+    rcases haa with h | h | h <;> subst h <;> rfl
+  · exact dbl_eq_uses_left_tolerance v t w defaultTol
+
+/-- … and without one the default tolerance of the expectation's `setValue(double)` -/
+theorem apix_double_default_tolerance (ea aa : String) (hea : ea ∈ ["ovl", "exp", "c"]) (haa : aa ∈ ["ovl", "exp", "c"])
+    (v w : D Float) (ig : Bool) :
+    ∃ e a, entryValueX "expected" ea (.dbl v) = some e ∧ entryValueX "actual" aa (.dbl w) = some a ∧
+      hasInputParameterGen (some e) a ig = doublesEqual floatClose v w defaultTol := by
+  refine ⟨.dbl v defaultTol, .dbl w defaultTol, ?_, ?_, ?_⟩
+  · simp only [List.mem_cons, List.mem_nil_iff, or_false] at hea
+    rcases hea with h | h | h <;> subst h <;> rfl
+  · simp only [List.mem_cons, List.mem_nil_iff, or_false] at haa
+    rcases haa with h | h | h <;> subst h <;> rfl
+  · exact dbl_eq_uses_left_tolerance v defaultTol w defaultTol
+
+/-- an integer parameter never matches a non-integer one, whichever side is the expectation and whichever entry points
+    are used -/
+theorem apix_int_vs_nonint_never_match (ci cx ai ax k : String)
+    (hcx : cx ∈ ["expected", "actual"]) (hax : ax ∈ ["ovl", "exp", "c"]) (n : Int) (x : XArg) (i m : MVal)
+    (hi : entryValue ci ai k n = some i) (hm : entryValueX cx ax x = some m) :
+    equalsGen i m = false ∧ equalsGen m i = false := by
+  have hmi := apix_value_nonint cx ax hcx hax x m hm
+  have hii : i.isInt = true := by
+    unfold entryValue at hi
+    cases hk : entryKind ci ai k with
+    | none => simp [hk] at hi
+    | some k' =>
+      simp only [hk, Option.bind_some] at hi
+      unfold mkInt at hi
+      repeat' split at hi
+      all_goals first | (cases hi; rfl) | cases hi
+  exact equals_int_nonint_false i m hmi.2 hii hmi.1
+
+example : entryValueX "expected" "c" (.cint 256) = some (.bool true) ∧ entryValueX "actual" "c" (.cint 0) = some (.bool false) := ⟨rfl, rfl⟩
+example : entryValueX "actual" "ovl" (.mem [1, 2]) = some (.mem [1, 2]) := rfl
+example : entryValueX "expected" "exp" (.dbl2 (.fin 1) (.inf false)) = some (.dbl (.fin 1) (.inf false)) := rfl
+example : entryValueX "actual" "exp" (.dbl2 (.fin 1) (.inf false)) = none := rfl
+
+/-! ## one object written several times; the data store (`setData` … `getData`) as a whole-history refinement
+
+`Cell` / `Store` are in Model/MockData.lean; which setter every `setData` overload and every C `set…Data` function reaches is
+read from the REGENERATED `Gen.MockEquals.dataSetters` and C19's `Gen.CMock`. -/
+
+/-- what `equals` and the getters see after a plain setter is what that setter stored: nothing of the object's past matters -/
+theorem cell_plain_last_wins (sem : Nat → Nat → Nat → Bool) (c : Cell) (hist : List (Option Repo × SetOp)) (repo : Option Repo)
+    (v : MVal) : (Cell.run sem c (hist ++ [(repo, .plain v)])).val = v := by
+  induction hist generalizing c with
+  | nil => rfl
+  | cons h t ih => exact ih _
+
+/-- … and after `setMemoryBuffer` the buffer and its size -/
+theorem cell_mem_last_wins (sem : Nat → Nat → Nat → Bool) (c : Cell) (hist : List (Option Repo × SetOp)) (repo : Option Repo)
+    (b : Bytes) : (Cell.run sem c (hist ++ [(repo, .mem b)])).val = .mem b ∧
+      (Cell.run sem c (hist ++ [(repo, .mem b)])).size = b.length := by
+  induction hist generalizing c with
+  | nil => exact ⟨rfl, rfl⟩
+  | cons h t ih => exact ih _
+
+/-- an object setter with a default repository: exactly the value a fresh object would get (`setObjectPointer`) -/
+theorem cell_object_with_repo (sem : Nat → Nat → Nat → Bool) (c : Cell) (hist : List (Option Repo × SetOp)) (r : Repo)
+    (ty : String) (p : Nat) :
+    (Cell.run sem c (hist ++ [(some r, .obj ty p)])).val = setObjectPointer (some r) sem ty p := by
+  induction hist generalizing c with
+  | nil => simp [Cell.run, Cell.apply, Cell.setObject, setObjectPointer, lookupForType]
+  | cons h t ih => exact ih _
+
+/-- behaviour of the code as it is: WITHOUT a default repository an object setter keeps the comparator of an earlier
+    object setter — the value can compare equal through a comparator installed for ANOTHER type -/
+theorem cell_object_without_repo_keeps_comparator (sem : Nat → Nat → Nat → Bool) (c : Cell) (ty : String) (p : Nat) :
+    (c.setObject none sem ty p).val = .obj ty p (c.cmp.map sem) ∧ (c.setObject none sem ty p).cmp = c.cmp := ⟨rfl, rfl⟩
+
+/-- `size_` survives every setter except `setMemoryBuffer` -/
+theorem cell_size_sticky (repo : Option Repo) (sem : Nat → Nat → Nat → Bool) (c : Cell) (op : SetOp)
+    (h : ∀ b, op ≠ .mem b) : (c.apply repo sem op).size = c.size := by
+  cases op with
+  | plain v => rfl
+  | mem b => exact absurd rfl (h b)
+  | obj ty p => cases repo <;> rfl
+
+/-! ### the data store of `MockSupport` -/
+
+/-- names are compared as C strings -/
+theorem sseq_iff (a b : Bytes) (ha : NulFree a) (hb : NulFree b) : simpleStringEq a b = true ↔ a = b := by
+  simp only [simpleStringEq, beq_iff_eq]; exact cmp_eq_zero_iff a b ha hb
+
+/-- writes keep the store's names C strings -/
+theorem store_update_namesOk (s : Store) (name : Bytes) (f : Cell → Cell) (hs : s.NamesOk) (hn : NulFree name) :
+    (s.update name f).NamesOk := by
+  induction s with
+  | nil => intro x hx; simp [Store.update] at hx; subst hx; exact hn
+  | cons h t ih =>
+    obtain ⟨n, c⟩ := h
+    have ht : Store.NamesOk t := fun x hx => hs x (by simp [hx])
+    have hh : NulFree n := hs (n, c) (by simp)
+    unfold Store.update
+    split
+    · intro x hx
+      simp only [List.mem_cons] at hx
+      rcases hx with hx | hx
+      · subst hx; exact hh
+      · exact ht x hx
+    · intro x hx
+      simp only [List.mem_cons] at hx
+      rcases hx with hx | hx
+      · subst hx; exact hh
+      · exact ih ht x hx
+
+/-- one write: the value of the written name becomes `f` of its old value (a fresh one if the name is new), every other
+    name keeps its value -/
+theorem store_get_update (s : Store) (name q : Bytes) (f : Cell → Cell) (hs : s.NamesOk) (hn : NulFree name) (hq : NulFree q) :
+    (s.update name f).getData q = if name = q then f (s.getData q) else s.getData q := by
+  induction s with
+  | nil =>
+    by_cases e : name = q
+    · subst e; simp [Store.update, Store.getData, NList.getValueByName, (sseq_iff name name hn hn).mpr rfl]
+    · have : simpleStringEq name q = false := by
+        cases h : simpleStringEq name q
+        · rfl
+        · exact absurd ((sseq_iff name q hn hq).mp h) e
+      simp [Store.update, Store.getData, NList.getValueByName, this, e]
+  | cons h t ih =>
+    obtain ⟨n, c⟩ := h
+    have ht : Store.NamesOk t := fun x hx => hs x (by simp [hx])
+    have hh : NulFree n := hs (n, c) (by simp)
+    have ih := ih ht
+    unfold Store.update
+    by_cases e1 : simpleStringEq n name = true
+    · have en : n = name := (sseq_iff n name hh hn).mp e1
+      subst en
+      simp only [e1, if_true]
+      by_cases e : n = q
+      · subst e; simp [Store.getData, NList.getValueByName, e1]
+      · have e2 : simpleStringEq n q = false := by
+          cases h : simpleStringEq n q
+          · rfl
+          · exact absurd ((sseq_iff n q hh hq).mp h) e
+        simp [Store.getData, NList.getValueByName, e2, e]
+    · have e1' : simpleStringEq n name = false := by simpa using e1
+      simp only [e1', Bool.false_eq_true, if_false]
+      by_cases e2 : simpleStringEq n q = true
+      · have en : n = q := (sseq_iff n q hh hq).mp e2
+        have ne : name ≠ q := by
+          intro hh2; subst hh2; subst en; simp [e2] at e1'
+        simp [Store.getData, NList.getValueByName, e2, ne]
+      · have e2' : simpleStringEq n q = false := by simpa using e2
+        simp only [Store.getData, NList.getValueByName, e2', Bool.false_eq_true, if_false] at ih ⊢
+        exact ih
+
+/-- WHOLE HISTORY: after any sequence of writes the store answers for every name exactly what "the writes to that name, in
+    order, applied to a fresh value" gives — the linked list with in-place writes refines the map `lastWrites` -/
+theorem store_run_refines (ops : List (Bytes × (Cell → Cell))) (s : Store) (q : Bytes) (hs : s.NamesOk)
+    (hops : ∀ op ∈ ops, NulFree op.1) (hq : NulFree q) :
+    (Store.run s ops).getData q = lastWrites q (s.getData q) ops := by
+  induction ops generalizing s with
+  | nil => rfl
+  | cons op rest ih =>
+    obtain ⟨n, f⟩ := op
+    have hn : NulFree n := hops (n, f) (by simp)
+    simp only [Store.run, lastWrites]
+    rw [ih (s.update n f) (store_update_namesOk s n f hs hn) (fun o ho => hops o (by simp [ho])),
+      store_get_update s n q f hs hn hq]
+
+/-- writes to other names do not change what a name holds -/
+theorem lastWrites_untouched (q : Bytes) (c : Cell) (ops : List (Bytes × (Cell → Cell))) (h : ∀ op ∈ ops, op.1 ≠ q) :
+    lastWrites q c ops = c := by
+  induction ops generalizing c with
+  | nil => rfl
+  | cons op rest ih =>
+    have : op.1 ≠ q := h op (by simp)
+    simp only [lastWrites, this, if_false]
+    exact ih c (fun o ho => h o (by simp [ho]))
+
+/-- histories compose -/
+theorem lastWrites_append (q : Bytes) (c : Cell) (a b : List (Bytes × (Cell → Cell))) :
+    lastWrites q c (a ++ b) = lastWrites q (lastWrites q c a) b := by
+  induction a generalizing c with
+  | nil => rfl
+  | cons op rest ih => simp only [List.cons_append, lastWrites]; exact ih _
+
+/-- END TO END: if the last write to `q` in a history stored the integer `v` (any integer kind the data API has, `v` in its
+    range), then reading `q` back and asking ANY integer getter gives exactly `v` or fails the test — whatever was stored
+    under that or other names before, and whatever was stored under other names afterwards. -/
+theorem data_integer_read_back (pre post : List (Bytes × (Cell → Cell))) (q : Bytes) (k : String) (v : Int) (m : MVal)
+    (hk : InRange k v) (hm : mkInt k v = some m)
+    (hnames : ∀ op ∈ pre ++ (q, Cell.setPlain m) :: post, NulFree op.1) (hq : NulFree q)
+    (hpost : ∀ op ∈ post, op.1 ≠ q) (g : String) (n : Int)
+    (h : getterRun g ((Store.run [] (pre ++ (q, Cell.setPlain m) :: post)).getData q).val = .ok n) : n = v := by
+  rw [store_run_refines _ [] q (fun x hx => by simp at hx) hnames hq, lastWrites_append] at h
+  simp only [lastWrites, if_true] at h
+  rw [lastWrites_untouched q _ post hpost] at h
+  simp only [Cell.setPlain] at h
+  have hw : m.WF := by
+    obtain ⟨m', hm', hi⟩ := mkInt_isInt k (inRange_mem hk) v
+    rw [hm] at hm'; cases hm'
+    cases m <;> simp [MVal.isInt] at hi <;> trivial
+  have d := getterRun_exact g m hw n h
+  have d2 := inRange_denote hk
+  rw [hm] at d2
+  simp only [Option.bind_some] at d2
+  rw [d] at d2
+  exact Option.some.inj d2
+
+/-- every `setData` overload / `setDataObject` / `setDataConstObject` makes exactly the setter call of its own kind on the value
+    `retrieveDataFromStore(name)` returned -/
+theorem data_setters_as_required : dataSetters = requiredDataSetters := rfl
+
+/-- every entry of the data API (C++ and C) for an integer stores it as a value of its own kind, in place -/
+theorem data_entry_int (repo : Option Repo) (sem : Nat → Nat → Nat → Bool) (api k : String) (hapi : api ∈ ["cpp", "c"])
+    (hk : k ∈ ["int", "uint"]) (v : Int) :
+    dataEntry repo sem api (.int k v) = (mkInt k v).map Cell.setPlain := by
+  simp only [List.mem_cons, List.mem_nil_iff, or_false] at hapi hk
+  rcases hapi with h | h <;> subst h <;> rcases hk with h | h <;> subst h <;> rfl
+
+/-- … and for the other kinds: bool (C: any non-zero int), double with the default tolerance, string, pointers, objects -/
+theorem data_entry_other (repo : Option Repo) (sem : Nat → Nat → Nat → Bool) :
+    (∀ b, dataEntry repo sem "cpp" (.x (.bool b)) = some (Cell.setPlain (.bool b))) ∧
+    (∀ n, dataEntry repo sem "c" (.x (.cint n)) = some (Cell.setPlain (.bool (n != 0)))) ∧
+    (∀ api ∈ ["cpp", "c"],
+      (∀ d, dataEntry repo sem api (.x (.dbl d)) = some (Cell.setPlain (.dbl d defaultTol))) ∧
+      (∀ s, dataEntry repo sem api (.x (.str s)) = some (Cell.setPlain (.str s))) ∧
+      (∀ a, dataEntry repo sem api (.x (.ptr a)) = some (Cell.setPlain (.ptr a))) ∧
+      (∀ a, dataEntry repo sem api (.x (.cptr a)) = some (Cell.setPlain (.cptr a))) ∧
+      (∀ a, dataEntry repo sem api (.x (.fptr a)) = some (Cell.setPlain (.fptr a))) ∧
+      (∀ ty p, dataEntry repo sem api (.obj ty p) = some (Cell.setObject repo sem ty p)) ∧
+      (∀ ty p, dataEntry repo sem api (.cobj ty p) = some (Cell.setObject repo sem ty p))) := by
+  refine ⟨fun _ => rfl, fun _ => rfl, ?_⟩
+  intro api hapi
+  simp only [List.mem_cons, List.mem_nil_iff, or_false] at hapi
+  rcases hapi with h | h <;> subst h <;> refine ⟨?_, ?_, ?_, ?_, ?_, ?_, ?_⟩ <;> intros <;> rfl
+
+example : (Store.run [] [([97], Cell.setPlain (.int 5)), ([98], Cell.setPlain (.bool true)), ([97], Cell.setPlain (.uint 7))]).getData [97]
+    = { val := .uint 7, size := 0, cmp := none, cop := none } := rfl
+example : Store.NamesOk ([] : Store) := fun x hx => by simp at hx
 
 /-! ## non-vacuity: concrete values on both sides of every boundary the theorems talk about -/
 
